@@ -12,6 +12,7 @@
 #include <atomic>
 #include <cassert>
 #include <cstdint>
+#include <cstring>
 #include <memory>
 
 namespace xenium {
@@ -131,9 +132,16 @@ struct seqlock {
   void update(Func func);
 
 private:
-  using storage_t = typename std::aligned_storage<sizeof(T), alignof(T)>::type;
   using sequence_t = uintptr_t;
   using copy_t = uintptr_t;
+
+  // The data is copied word by word (with atomic operations), so every slot has to consist of full, properly
+  // aligned words - also if sizeof(T) is not a multiple of the word size or T has a weaker alignment.
+  static constexpr std::size_t full_words = sizeof(T) / sizeof(copy_t);
+  static constexpr std::size_t tail_bytes = sizeof(T) % sizeof(copy_t);
+  static constexpr std::size_t storage_size = (full_words + (tail_bytes != 0 ? 1 : 0)) * sizeof(copy_t);
+  static constexpr std::size_t storage_alignment = alignof(T) > alignof(copy_t) ? alignof(T) : alignof(copy_t);
+  using storage_t = typename std::aligned_storage<storage_size, storage_alignment>::type;
 
   [[nodiscard]] bool is_write_pending(sequence_t seq) const { return (seq & 1) != 0; }
 
@@ -228,11 +236,16 @@ void seqlock<T, Policies...>::release_lock(sequence_t seq) {
 
 template <class T, class... Policies>
 void seqlock<T, Policies...>::read_data(T& dest, const storage_t& src) const {
-  auto* pdest = reinterpret_cast<copy_t*>(&dest);
-  auto* pend = pdest + (sizeof(T) / sizeof(copy_t));
+  auto* pdest = reinterpret_cast<unsigned char*>(&dest);
   const auto* psrc = reinterpret_cast<const std::atomic<copy_t>*>(&src);
-  for (; pdest != pend; ++psrc, ++pdest) {
-    *pdest = psrc->load(std::memory_order_relaxed);
+  for (std::size_t i = 0; i < full_words; ++i, ++psrc, pdest += sizeof(copy_t)) {
+    const copy_t word = psrc->load(std::memory_order_relaxed);
+    std::memcpy(pdest, &word, sizeof(copy_t));
+  }
+  if constexpr (tail_bytes != 0) {
+    // sizeof(T) is not a multiple of the word size -> the remaining bytes are part of one more (partially used) word
+    const copy_t word = psrc->load(std::memory_order_relaxed);
+    std::memcpy(pdest, &word, tail_bytes);
   }
   // (6) - this acquire-fence synchronizes-with the release-fence (7)
   XENIUM_THREAD_FENCE(std::memory_order_acquire);
@@ -250,11 +263,17 @@ void seqlock<T, Policies...>::store_data(const T& src, storage_t& dest) {
   // (7) - this release-fence synchronizes-with the acquire-fence (6)
   XENIUM_THREAD_FENCE(std::memory_order_release);
 
-  const auto* psrc = reinterpret_cast<const copy_t*>(&src);
-  const auto* pend = psrc + (sizeof(T) / sizeof(copy_t));
+  const auto* psrc = reinterpret_cast<const unsigned char*>(&src);
   auto* pdest = reinterpret_cast<std::atomic<copy_t>*>(&dest);
-  for (; psrc != pend; ++psrc, ++pdest) {
-    pdest->store(*psrc, std::memory_order_relaxed);
+  for (std::size_t i = 0; i < full_words; ++i, ++pdest, psrc += sizeof(copy_t)) {
+    copy_t word;
+    std::memcpy(&word, psrc, sizeof(copy_t));
+    pdest->store(word, std::memory_order_relaxed);
+  }
+  if constexpr (tail_bytes != 0) {
+    copy_t word = 0;
+    std::memcpy(&word, psrc, tail_bytes);
+    pdest->store(word, std::memory_order_relaxed);
   }
 }
 
